@@ -203,6 +203,8 @@ class LTerm:
                 self._ufs = [z3.Function("%s.val" % self.uid, INT, et.sort)]
             else:
                 self._ufs = [z3.Function("%s.%s" % (self.uid, f), INT, s) for f, s in zip(et.fields, et.sorts)]
+            for f in self._ufs:
+                self.ctx.uf_owner[f.name()] = self
         return self._ufs
 
     def at(self, idx):
@@ -340,6 +342,10 @@ class FM(LTerm):
             self._len = self.base(src.length())
             ctx.assume(self.base(z3.IntVal(0)) == 0)
             ctx.assume(self._len >= 0)
+            # every source element contributes between minouts and maxouts elements (length of a flatMap)
+            self.minouts = min(len(p.outs) for p in paths) if paths else 0
+            sl = src.length()
+            ctx.assume(z3.And(self._len >= self.minouts * sl, self._len <= self.maxouts * sl))
 
     def length(self):
         return self._len
@@ -371,10 +377,20 @@ class FM(LTerm):
             g = self.inst(p.guard, sj)
             for k, o in enumerate(p.outs):
                 cases.append(z3.And(g, pos == k, self.interp.elem_eq(m.elem, self.inst_elem(o, sj))))
+        self.touch(cases, m.cond)
         ctx.assume(z3.Implies(m.cond, z3.And(z3.Or(cases) if cases else z3.BoolVal(False),
                                              m.idx == self.base(sj) + pos)))
         self.note_source_member(sm)
         m.origin = (sm, pos)
+        if not self.is_map and Member.cur_gen[0] == 0 and not getattr(self, "_in_succ", False):
+            # successor instantiation: what the next source index contributes (so that "the last element of
+            # the result comes from the last contributing source element" is derivable)
+            self._in_succ = True
+            try:
+                nxt = self.src.new_member(z3.And(m.cond, sj + 1 < self.src.length()), sj + 1)
+                self.note_source_member(nxt)
+            finally:
+                self._in_succ = False
 
     def note_source_member(self, sm):
         """base() bookkeeping for a source index (also used to learn that it produced nothing)."""
@@ -386,13 +402,43 @@ class FM(LTerm):
             self._mapped.append(sm)
             return
         cnt = self.count(sm.idx)
-        ctx.assume(z3.Implies(sm.cond, z3.And(self.base(sm.idx) >= 0, self.base(sm.idx) + cnt <= self._len)))
+        ctx.assume(z3.Implies(sm.cond, z3.And(self.base(sm.idx) >= self.minouts * sm.idx,
+                                              self.base(sm.idx) <= self.maxouts * sm.idx,
+                                              self.base(sm.idx) + cnt <= self._len,
+                                              self._len - (self.base(sm.idx) + cnt) >=
+                                              self.minouts * (self.src.length() - sm.idx - 1))))
         for om in self._mapped:
             ocnt = self.count(om.idx)
             both = z3.And(sm.cond, om.cond)
             ctx.assume(z3.Implies(z3.And(both, om.idx < sm.idx), self.base(om.idx) + ocnt <= self.base(sm.idx)))
             ctx.assume(z3.Implies(z3.And(both, sm.idx < om.idx), self.base(sm.idx) + cnt <= self.base(om.idx)))
         self._mapped.append(sm)
+
+    def touch(self, exprs, cond):
+        """trigger-based instantiation: every element  T.f(i)  of another list that an instantiated guard or
+        output mentions becomes an index of interest of T (its schematic facts are instantiated there)"""
+        ctx = self.ctx
+        owners = ctx.uf_owner
+        seen = set()
+        stack = [e for e in exprs if is_z3(e)]
+        found = []
+        while stack:
+            e = stack.pop()
+            k = e.get_id()
+            if k in seen:
+                continue
+            seen.add(k)
+            if z3.is_app(e):
+                d = e.decl()
+                if d.kind() == z3.Z3_OP_UNINTERPRETED and e.num_args() == 1:
+                    t = owners.get(d.name())
+                    if t is not None and t is not self:
+                        found.append((t, e.arg(0)))
+                stack.extend(e.children())
+        for t, idx in found:
+            if t.find_member(idx, cond) is None and not any(m.idx.eq(idx) for m in t.members):
+                rng = z3.And(cond, idx >= 0, idx < t.length())
+                t.new_member(rng, idx)
 
     def out_k(self, j, k):
         cur = None
@@ -416,6 +462,7 @@ class FM(LTerm):
             if o is None:
                 continue
             cond = z3.And(sm.cond, cnt > k)
+            self.touch(self.interp.elem_parts(o) + [cnt], sm.cond)
             idx = self.base(sm.idx) + k
             m = Member(idx, self.at(idx), cond, origin=(sm, z3.IntVal(k)))
             self.members.append(m)
@@ -736,6 +783,7 @@ class Ctx:
         self.hc = {}
         self.fm_terms = []
         self.all_fms = []
+        self.uf_owner = {}
         self.links = []
         self._strip_seen = set()
         self._strip_visited = set()
@@ -755,6 +803,7 @@ class Ctx:
             self.hc = dict(parent.hc)
             self.fm_terms = list(parent.fm_terms)
             self.all_fms = list(parent.all_fms)
+            self.uf_owner = parent.uf_owner
             self.links = list(parent.links)
             self.gs = {k: list(v) for k, v in parent.gs.items()}
             self.templates = parent.templates
@@ -971,6 +1020,27 @@ class Ctx:
             for t in list(self.terms):
                 if id(t) not in flagged:
                     continue
+                if type(t).__name__ == "PairSpace" and t.source.kind == "adjzip":
+                    # an element of the underlying list takes part in the pairs (i-1, i) and (i, i+1)
+                    done = t.__dict__.setdefault("_fwd", set())
+                    T = t.source.term
+                    for pm in list(T.members):
+                        if pm.serial in done:
+                            continue
+                        done.add(pm.serial)
+                        if pm.gen > 0 or self.fwd_budget <= 0:
+                            continue
+                        self.fwd_budget -= 2
+                        Member.cur_gen[0] = 1
+                        try:
+                            for k in (pm.idx - 1, pm.idx):
+                                k = z3.simplify(k)
+                                if not any(m.idx.eq(k) for m in t.members):
+                                    t.new_member(z3.And(pm.cond, k >= 0, k < t.length()), k)
+                        finally:
+                            Member.cur_gen[0] = 0
+                        changed = True
+                    continue
                 if isinstance(t, FM):
                     done = t.__dict__.setdefault("_fwd", set())
                     if len(t.src.members) == t.__dict__.get("_fwd_n", -1):
@@ -1131,7 +1201,12 @@ class Ctx:
         if z3.is_false(cond):
             return False
         if self.pure_depth:
-            raise Unsupported("branch on a symbolic condition inside a pure (fact) evaluation: %s" % cond)
+            # no fork inside a pure evaluation: the condition must already be decided by the path
+            if self.check(z3.Not(cond), quick=True) == z3.unsat:
+                return True
+            if self.check(cond, quick=True) == z3.unsat:
+                return False
+            raise Unsupported("branch on a symbolic condition inside a pure (fact) evaluation: %s" % str(cond)[:200])
         if self.pos < len(self.prefix):
             d = self.prefix[self.pos]
         else:
